@@ -6,6 +6,8 @@ package sftp
 import (
 	"os"
 	"time"
+
+	sshfx "github.com/pkg/sftp/internal/encoding/ssh/filexfer"
 )
 
 const (
@@ -114,6 +116,19 @@ func fileStatFromInfo(fi os.FileInfo) (uint32, *FileStat) {
 
 	// os specific file stat decoding
 	fileStatFromInfoOs(fi, &flags, fileStat)
+
+	// a FileInfo that carries SFTP attributes (what this package's Client returns, for example):
+	// the long name takes the owner from them, so the attributes have to as well.
+	switch sys := fi.Sys().(type) {
+	case *FileStat:
+		flags |= sshFileXferAttrUIDGID
+		fileStat.UID = sys.UID
+		fileStat.GID = sys.GID
+	case *sshfx.Attributes:
+		flags |= sshFileXferAttrUIDGID
+		fileStat.UID = sys.UID
+		fileStat.GID = sys.GID
+	}
 
 	// The call above will include the sshFileXferAttrUIDGID in case
 	// the os.FileInfo can be casted to *syscall.Stat_t on unix.
